@@ -30,7 +30,8 @@ CONSTANTS Configs,      \* set of task/client configurations (records, see MC_Cl
           NearOffsets,  \* throttled tasks: service times of (target interval - k) ticks, k in NearOffsets, are possible too
                         \* (a client that comes back just before / at / just after its next scheduled time)
           Weights,      \* weights a successful request may report (0 allowed)
-          ErrKinds,     \* kinds of failing requests: subset of {"api", "transport", "timeout"}
+          ErrKinds,     \* kinds of failing requests: subset of {"api", "transport", "timeout", "soft"}; "soft" = the runner RETURNS
+                        \* success: False together with a weight and its unit (a bulk with item errors, a failed assertion): not an exception
           MaxErrors,    \* at most this many failing requests per run
           PoissonIncs,  \* possible increments of the Poisson schedule (ticks)
           ExtAt,        \* request numbers during which the task may be completed externally (complete.set())
@@ -92,8 +93,10 @@ NoSample == [client |-> -1, task |-> "", ty |-> 0, abs |-> 0, rs |-> 0, lat |-> 
              ops |-> 0, unit |-> "", p |-> 0, pone |-> FALSE, success |-> FALSE]
 
 (* one request as observed: the tuple yielded by the schedule (sched, ty, p) at instant yat, the client's log             *)
-(* (issue = runner called, ws/we = request sent / response received, ret = runner returned), the outcome, the samples     *)
-(* recorded for it, and two accumulators: lw = weight (in the target's unit) of the last successful request so far,        *)
+(* (issue = runner called, ws/we = request sent / response received, ret = runner returned), the outcome (ok = success,   *)
+(* w / unit = the weight and unit that came back: 0 "ops" for an exception, the runner's own for a returned failure), the  *)
+(* samples recorded for it, and two accumulators: lw = weight (in the target's unit) of the last request so far that      *)
+(* reported a weight > 0 (successful or not),                                                                              *)
 (* exts = task completed externally so far                                                                                 *)
 NoReq == [n |-> 0, sched |-> 0, ty |-> 0, p |-> 0, yat |-> 0, issue |-> 0, ws |-> 0, we |-> 0, ret |-> 0,
           ok |-> FALSE, w |-> 0, unit |-> "", ext |-> FALSE, nsamples |-> 0, s |-> NoSample, lw |-> 0, exts |-> FALSE]
@@ -103,7 +106,7 @@ EffWeight(c, r) == IF r.unit = c.tunit THEN r.w ELSE 1      \* a mismatching uni
 (* the runner reports completion after this request *)
 RunnerDone(c, r) == c.rc > 0 /\ r.n >= c.rc
 
-Accum(c, prev, r) == [r EXCEPT !.lw = IF r.ok /\ r.w > 0 THEN EffWeight(c, r) ELSE prev.lw,
+Accum(c, prev, r) == [r EXCEPT !.lw = IF r.w > 0 THEN EffWeight(c, r) ELSE prev.lw,
                                !.exts = prev.exts \/ r.ext \/ RunnerDone(c, r)]
 
 InitState(t0) ==
@@ -134,7 +137,7 @@ LcType(c, s)    == IF c.kind = "iter" THEN (IF s.lcIt < c.wi THEN Warmup ELSE No
 LcPercent(c, s) == IF c.kind = "iter" THEN s.lcIt + 1 ELSE s.lcNow - s.lcStart
 
 (* sched.next(next_scheduled): Unthrottled -> 0 (also the FIRST request of a throttled task and every request before *)
-(* the first successful one), deterministic -> + wait_time, Poisson -> + expovariate(rate)                           *)
+(* the first one that reports a weight > 0), deterministic -> + wait_time, Poisson -> + expovariate(rate)                           *)
 NextSched(s, inc) == CASE s.del = "unthrottled" -> 0
                        [] s.del = "deterministic" -> s.sched + s.wait
                        [] s.del = "poisson" -> s.sched + inc
@@ -160,11 +163,12 @@ IssueStep(s) == [s EXCEPT !.pc = "wire", !.cur.issue = s.now]
 WireStartStep(s, d1) == [s EXCEPT !.pc = "inflight", !.now = s.now + d1, !.cur.ws = s.now + d1]      \* on_request_start
 WireEndStep(s, svc)  == [s EXCEPT !.pc = "returning", !.now = s.now + svc, !.cur.we = s.now + svc]   \* on_request_end
 
-(* execute_single returns: processing_end = perf_counter(); an error gives weight 0, unit "ops" *)
-ReturnStep(c, s, d2, ok, w, ext) ==
+(* execute_single returns: processing_end = perf_counter(); an exception gives weight 0, unit "ops"; a runner that returns  *)
+(* success: False (ok = FALSE) still reports its weight w in its unit: the caller passes w and unit as they came back      *)
+ReturnStep(c, s, d2, ok, w, unit, ext) ==
     \* ext: the complete event is set while the request is in flight; cur.ext: it is set when the runner returns
     [s EXCEPT !.pc = "feedback", !.now = s.now + d2, !.cur.ret = s.now + d2, !.cur.ok = ok, !.cset = @ \/ ext,
-              !.cur.w = IF ok THEN w ELSE 0, !.cur.unit = IF ok THEN c.runit ELSE "ops", !.cur.ext = (s.cset \/ ext),
+              !.cur.w = w, !.cur.unit = unit, !.cur.ext = (s.cset \/ ext),
               !.nerr = IF ok THEN @ ELSE @ + 1]
 
 (* schedule_handle.after_request: UnitAwareScheduler (first request / weight change re-create the delegate) *)
@@ -223,12 +227,12 @@ Return ==
          \* a time-based loop needs time to pass
          /\ (cfg.kind = "time" => st.now + d > st.cur.issue)
          /\ \/ \E w \in Weights :
-                 /\ st' = ReturnStep(cfg, st, d, TRUE, w, ext)
+                 /\ st' = ReturnStep(cfg, st, d, TRUE, w, cfg.runit, ext)
                  /\ act' = [name |-> "Return", d |-> d, ok |-> TRUE, w |-> w, err |-> "", ext |-> ext]
             \/ /\ st.nerr < MaxErrors
-               /\ \E k \in ErrKinds :
-                    /\ st' = ReturnStep(cfg, st, d, FALSE, 0, ext)
-                    /\ act' = [name |-> "Return", d |-> d, ok |-> FALSE, w |-> 0, err |-> k, ext |-> ext]
+               /\ \E k \in ErrKinds : \E w \in (IF k = "soft" THEN Weights ELSE {0}) :
+                    /\ st' = ReturnStep(cfg, st, d, FALSE, w, IF k = "soft" THEN cfg.runit ELSE "ops", ext)
+                    /\ act' = [name |-> "Return", d |-> d, ok |-> FALSE, w |-> w, err |-> k, ext |-> ext]
 AfterRequest == st.pc = "feedback" /\ st' = AfterStep(cfg, st)
                 /\ act' = [name |-> IF st'.pc = "aborted" THEN "Abort" ELSE "AfterRequest"]
 Record == st.pc = "record" /\ st' = RecordStep(cfg, st)
@@ -246,7 +250,7 @@ Spec == Init /\ [][Next]_vars
 
 HasS(r) == r.nsamples >= 1
 Ty(r) == IF HasS(r) THEN r.s.ty ELSE r.ty
-AbortsHere(c, r) == AbortExpected(c) /\ r.ok /\ r.w > 0
+AbortsHere(c, r) == AbortExpected(c) /\ r.w > 0   \* (exceptions report weight 0)
 
 ReqClauses == {"C04_TimingOrder", "C04_ProcessingWithinRequest", "C04_ServiceTimeIsWireSpan", "C04_NotBeforeSchedule", "C04_LatencyFromSchedule",
                "C04_LatencyAtLeastService", "C04_UnthrottledLatencyIsService", "C04_OneSamplePerRequest", "C04_SampleCarries",
@@ -287,7 +291,7 @@ ReqClause(name, c, ts, prev, r, tol) ==
                     /\ (prev.n > 0 /\ HasS(prev)) => prev.s.p <= r.s.p
     [] name = "C05_SchedMonotone" ->
          r.sched >= 0 /\ (prev.n > 0 => prev.sched <= r.sched)
-    [] name = "C05_DeterministicSpacing" ->   \* weight * C / T apart, weight = weight of the latest successful request
+    [] name = "C05_DeterministicSpacing" ->   \* weight * C / T apart, weight = the latest weight > 0 a request reported (successful or not)
          (c.sched = "deterministic" /\ ~AbortExpected(c) /\ prev.n > 0 /\ prev.lw > 0) =>
             Abs((r.sched - prev.sched) * c.tnum - prev.lw * c.clients * c.tps * c.tden) <= tol * c.tnum
     [] name = "C05_RampUp" ->                 \* the client enters its loop ramp * idx / total after the start
